@@ -214,7 +214,7 @@ def run_pool(prop, mod, shards, jobs):
 
     def spawn(slot):
         parent, child = ctxmp.Pipe()
-        p = ctxmp.Process(target=_worker_main, args=(child, progress, slot), daemon=True)
+        p = ctxmp.Process(target=_worker_main, args=(child, progress, slot), daemon=False)
         p.start()
         child.close()
         workers[slot] = {'proc': p, 'conn': parent, 'busy': None, 'last': 0, 'since': time.time()}
@@ -406,6 +406,11 @@ def main(argv=None):
     else:
         results, hang_fails = run_pool(prop, mod, shards, jobs)
 
+    if hasattr(mod, 'teardown'):
+        try:
+            mod.teardown()
+        except Exception:       # noqa: BLE001
+            pass
     errors = [r for r in results if r is not None and 'error' in r]
     if errors:
         for r in errors[:3]:
